@@ -15,7 +15,7 @@ for d in sorted(glob.glob(os.path.join(ROOT, "seeded", "*"))):
     files = sorted(set(re.findall(r"^\+\+\+ b/bionumpy/(\S+)", patch, re.M)))
     funcs = [f for f in sorted(set(x.strip() for x in re.findall(r"^@@.*@@ (?:def |class )?(\w+)", patch, re.M))) if f not in ("from", "import")]
     buckets = [re.sub(r"^bucket=", "", b.split(" ")[0]) for b in m.get("check_buckets", [])]
-    status = "no longer applies to HEAD" if not m.get("patch_applies") else (", ".join("`" + b + "`" for b in buckets[:2]) if m.get("detected_by_check") else "MISSED")
+    status = "no longer applies to HEAD" if not m.get("patch_applies") else (", ".join("`" + b + "`" for b in buckets[:2]) if m.get("detected_by_check") else ("not claimed (see note)" if notes.get(m["seed"], "").startswith("**not claimed**") else "MISSED"))
     rows[m["seed"]] = f"| {m['seed']} | {', '.join(files)} ({', '.join(funcs[:2])}) | {m['needs_to_manifest']} | {status} | {notes.get(m['seed'], '')} |"
 out = []
 titles = {"h": "Eighth round (`-h`): as the seventh, with the seven earlier locations excluded and a list of general places where slips hide (rarely used options, second entry points, results handed straight on, size-dependent branches, side effects on arguments, interactions of two calls).", "g": "Seventh round (`-g`): agents were given the files, mechanisms and observation points the property is anchored in, and were asked to put their change somewhere none of the earlier six rounds had touched.", "f": "Sixth round (`-f`): agents were asked to aim at the edges of the input domain (empty and single-record inputs, numeric limits, very long fields, first and last rows, the write side).", "e": "Fifth round (`-e`): agents were asked for less central code paths, option combinations, cooperating edits and swapped arguments.", "a": "First round (`-a`): agents saw only the property text.",
@@ -30,7 +30,8 @@ for tag in "abcdefgh":
 total = len(rows)
 missed_first = sum(1 for k in rows if "missed at first" in notes.get(k, ""))
 out += ["", f"In all {total} seeded changes were written and {n_confirmed} confirmed against a HEAD they apply to; {missed_first} of them were missed by the check as it stood when the change arrived and led to a strengthening, "
-        f"{sum(1 for k in rows if 'before the first run' in notes.get(k, ''))} were strengthened from the report before the first run, and every one that still applies is caught now."]
+        f"{sum(1 for k in rows if 'before the first run' in notes.get(k, ''))} were strengthened from the report before the first run, "
+        f"{sum(1 for k in rows if notes.get(k, '').startswith('**not claimed**'))} is not claimed because it lies outside the property as stated (see its note), and every other one that still applies is caught now."]
 p = os.path.join(ROOT, "DESIGN.md")
 s = open(p).read()
 a, b = s.index("<!-- SEED-TABLES-BEGIN -->"), s.index("<!-- SEED-TABLES-END -->")
